@@ -299,6 +299,27 @@ impl Qcow2Header {
             .into());
         }
 
+        // encryption isn't supported, so don't misread encrypted clusters
+        let crypt_method = header.crypt_method;
+        if crypt_method != 0 {
+            return Err(format!("qcow2 encryption method {crypt_method} is not supported").into());
+        }
+
+        let refcount_order = header.refcount_order;
+        if refcount_order > 6 {
+            return Err(format!("qcow2 refcount_order {refcount_order} is invalid").into());
+        }
+
+        // the in-ram refcount table is sized from this field
+        let reftable_clusters = header.refcount_table_clusters;
+        if reftable_clusters == 0
+            || (reftable_clusters as u64) << cluster_bits > Self::MAX_REFCOUNT_TABLE_SIZE as u64
+        {
+            return Err(
+                format!("qcow2 refcount table size {reftable_clusters} clusters is invalid").into(),
+            );
+        }
+
         let backing_filename = if header.backing_file_offset != 0 {
             let (offset, length) = (header.backing_file_offset, header.backing_file_size);
             if length > 1023 {
